@@ -607,7 +607,18 @@ fn judge_update(c: &dyn Cell, start: &[String], upd: &[String], h: &mut Hist) ->
                 bad.push((update_cause(c.name(), &g, &want, names_f), format!("{}: start {:?} update {:?}: got {} want {}", c.name(), start, upd, g, want)));
             }
         }
-        (Err(_), Err(_)) => h.bump("update/both-err"),
+        (Err(_), Err(e)) => {
+            h.bump("update/both-err");
+            // an update line names what it wants to change: the update command must not insist on
+            // arguments the value already has, at any level of the line
+            // (a line that switches to another subcommand variant has to supply that variant's
+            // required arguments: only lines that stay on the value's own variant path are judged)
+            let chain = |v: &[String]| -> Vec<String> { v.iter().filter(|t| ["status", "push", "tag", "remote", "add", "remove", "extra"].contains(&t.as_str())).cloned().collect() };
+            let same_path = chain(upd).is_empty() || chain(upd) == chain(start);
+            if same_path && e.kind() == clap::error::ErrorKind::MissingRequiredArgument {
+                bad.push((format!("{}: the update command requires an argument the update line does not name", c.name()), format!("start {:?} update {:?}: {}", start, upd, e.to_string().lines().next().unwrap_or(""))));
+            }
+        }
         (Ok(g), Err(e)) => bad.push((format!("{}: update succeeds on a line command_for_update rejects", c.name()), format!("{} / {}", g, kind(&e)))),
         (Err(k), Ok(_)) => {
             if k.starts_with("start value") {
